@@ -18,6 +18,7 @@ func C19(r *core.Report) {
 		"R2 in every per-slot loop the NotFound branch of the block lookup continues with the next slot (a skipped slot does not end the stream); R3 every field of StreamTransactionsFilter and StreamBlocksFilter is read by the server; " +
 		"R4 the ordered flush walks slots upward and sorts positions with a strict ascending comparator before sending; R5 the address-index path must not cap the per-account result with a constant limit that the scan path does not have (index/scan parity). " +
 		"R6 what the per-account workers of the address-index path collect into keeps each response under a key built from (slot, position) - a keyed map store, never an append or a direct send - so a transaction found by several workers is streamed once. " +
+		"R7 the address-index path hands the multi-epoch reader its per-epoch readers newest epoch first (the slot-window iterator stops at the first transaction below the range, which is only right when older epochs come later). " +
 		"Not decided: equality of the streamed set with the archive for concrete epochs, the account matching itself (HasAccount, loaded addresses)."
 	f := r.Anchor("C19.R1", "main.(*MultiEpoch).processSlotTransactions")
 	if f != nil {
@@ -28,6 +29,8 @@ func C19(r *core.Report) {
 	c19NotFoundContinues(r)
 	c19FieldCoverage(r)
 	c19FlushOrder(r)
+	readerOrderRule(r, "C19.R7", "main.(*MultiEpoch).getGsfaReadersInEpochDescendingOrderForSlotRange")
+	r.Floor("C19.R7", 1)
 	r.Floor("C19.R1", 6)
 	r.Floor("C19.R2", 2)
 	r.Floor("C19.R3", 6)
